@@ -13,6 +13,7 @@ import Driver.Update
 import Driver.Form
 import Driver.Relay
 import Driver.DevConn
+import Driver.RsPos
 
 def main (args : List String) : IO UInt32 := do
   match args with
@@ -31,4 +32,5 @@ def main (args : List String) : IO UInt32 := do
   | ["form"] => Driver.FormDrv.main; return 0
   | ["relay"] => Driver.RelayDrv.main; return 0
   | ["devconn"] => Driver.DevConnDrv.main; return 0
+  | ["rspos"] => Driver.RsPosDrv.main; return 0
   | _ => IO.eprintln "usage: svdrv <subsystem>"; return 2
